@@ -909,7 +909,11 @@ func ApplyFunction(env *Zlisp, name string, args []Sexp) (Sexp, error) {
 			return SexpNull, err
 		}
 	default:
-		return SexpNull, fmt.Errorf("second argument must be array or list")
+		// the empty list (what (list) and an empty variadic tail are)
+		// is a list: no arguments.
+		if args[1] != SexpNull {
+			return SexpNull, fmt.Errorf("second argument must be array or list")
+		}
 	}
 
 	return env.Apply(fun, funargs)
@@ -937,6 +941,10 @@ func MapFunction(env *Zlisp, name string, args []Sexp) (Sexp, error) {
 		x, err := MapList(env, fun, e)
 		return x, err
 	default:
+		// mapping over the empty list gives the empty list
+		if args[1] == SexpNull {
+			return SexpNull, nil
+		}
 		return SexpNull, fmt.Errorf("second argument must be array or list; we saw %T / val = %#v", e, e)
 	}
 }
